@@ -150,3 +150,12 @@ Proof. apply find_some. Qed.
 
 Lemma filter_In' {A} (p : A -> bool) x l : In x (filter p l) <-> In x l /\ p x = true.
 Proof. apply filter_In. Qed.
+
+Lemma NoDup_app_intro {A} (l1 l2 : list A) :
+  NoDup l1 -> NoDup l2 -> (forall x, In x l1 -> In x l2 -> False) -> NoDup (l1 ++ l2).
+Proof.
+  induction l1 as [|a l1 IH]; intros H1 H2 Hd; cbn; [exact H2|].
+  inversion H1 as [|? ? Hn H1']; subst. constructor.
+  - intros Hin. apply in_app_or in Hin as [Hin|Hin]; [contradiction|]. apply (Hd a); [now left|exact Hin].
+  - apply IH; [exact H1'|exact H2|]. intros x Hx. apply Hd. now right.
+Qed.
